@@ -46,6 +46,8 @@ func patterns(blocks int) map[string][]byte {
 type ctx struct{ run *vr.Run }
 
 func (c ctx) try(site, what string, rep any, f func()) bool {
+	c.run.Begin(site, what, rep)
+	defer c.run.End()
 	p, msg, fr := vr.Try(f)
 	if p {
 		c.run.Violation(site+"|panic|"+vr.MsgClass(msg)+"|"+fr, what+": panic: "+msg+" in "+fr, rep)
@@ -55,6 +57,7 @@ func (c ctx) try(site, what string, rep any, f func()) bool {
 
 func main() {
 	run := vr.New("C05", "exploration")
+	defer run.Recover()
 	freepass.MaybeReplay(run)
 	c := ctx{run}
 	run.Rule("core: keys x IVs x every block count 1..N x 4 plaintext patterns (full product) compared with IGE computed from its definition on crypto/aes; refusal: every length 0..64 not a positive multiple of 16; wrappers: every payload length 0..N x leading-zero class of each nonce x producer (client itself / reference peer with the legal padding, two fillers). temp-key history: every ordered pair of nonce pairs from a 3x3 alphabet x seal/open per step. Every case is distinct; non-trivial = the call under test returned normally and the oracle compared bytes")
